@@ -210,7 +210,7 @@ def draw_axis_kw(c, nd, allow_tuple=True, allow_empty=False):
     if k == 1:
         return "none", None
     if k == 2:
-        return "int", c.axis(nd)
+        return "int", c.axis(nd)  # (Case.signed_axis spells one axis in four as a NumPy integer)
     if k == 3:
         n = c.int(1, nd)
         axs = c.sample(range(nd), n)
